@@ -235,3 +235,36 @@ func VC13Buffered() {
 	vrt.Assert("stop-nil", b.Stop() == nil)
 	vrt.Observe("sink-writes", len(sink.writes))
 }
+
+//verif: prop=C13 bounds="multi-WriteSyncer whose members are themselves multi-WriteSyncers (slice-typed, hence uncomparable, sinks) and a sink listed twice: Write and Sync reach every listed sink once per listing, counts and errors aggregate as for flat lists, no panic"
+func VC13MultiNested() {
+	a, b := &vBytesSink{}, &vBytesSink{}
+	var ws WriteSyncer
+	wantA, wantB := 0, 0
+	shape := vrt.Choice("shape", 4)
+	switch shape {
+	case 0:
+		ws, wantA, wantB = NewMultiWriteSyncer(NewMultiWriteSyncer(a, b), NewMultiWriteSyncer(b, a)), 2, 2
+	case 1:
+		ws, wantA, wantB = NewMultiWriteSyncer(a, b, a), 2, 1
+	case 2:
+		ws, wantA, wantB = NewMultiWriteSyncer(NewMultiWriteSyncer(a, a), b, NewMultiWriteSyncer(b, a)), 3, 2
+	case 3:
+		ws, wantA, wantB = NewMultiWriteSyncer(AddSync(vFuncWriter(func(p []byte) (int, error) { return a.Write(p) })), AddSync(vFuncWriter(func(p []byte) (int, error) { return b.Write(p) })), b), 1, 2
+	}
+	payload := vrt.Bytes("p", 2)
+	n, err := ws.Write(payload)
+	vrt.Assert("write-reaches-every-listing", n == 2 && err == nil && len(a.writes) == wantA && len(b.writes) == wantB)
+	serr := ws.Sync()
+	syncA, syncB := wantA, wantB
+	if shape == 3 {
+		syncA = 0 // a function-typed writer has no Sync of its own
+		syncB = 1
+	}
+	vrt.Assert("sync-reaches-every-listing", serr == nil && a.syncs == syncA && b.syncs == syncB)
+}
+
+// vFuncWriter is an io.Writer of function type (not comparable).
+type vFuncWriter func([]byte) (int, error)
+
+func (f vFuncWriter) Write(p []byte) (int, error) { return f(p) }
